@@ -117,6 +117,17 @@ class GR:
             out = "v" + out
         return out
 
+    def attr_names(self, n):
+        """attribute names of one entry; now and then a name is REPEATED (the parser accepts that; a reference and
+        get_attribute both mean the first definition)"""
+        r = self.r
+        names = r.sample(ATTRS, n)
+        if names and r.random() < 0.2:
+            names.insert(r.randrange(len(names) + 1), r.choice(names))
+            if r.random() < 0.3:
+                names.append(names[0])
+        return names
+
     def resource(self):
         r = self.r
         out = ""
@@ -127,11 +138,11 @@ class GR:
                 out += "%s =\n    .a = %s\n" % (m, self.pattern(self.depth - 1))
             else:
                 out += "%s = %s\n" % (m, self.pattern(self.depth))
-                for a in r.sample(ATTRS, r.choice([0, 0, 1, 2])):
+                for a in self.attr_names(r.choice([0, 0, 1, 2])):
                     out += "    .%s = %s\n" % (a, self.pattern(self.depth - 1))
         for t in r.sample(TERMS, r.randint(0, len(TERMS))):
             out += "-%s = %s\n" % (t, self.pattern(self.depth))
-            for a in r.sample(ATTRS, r.choice([0, 1, 1, 2])):
+            for a in self.attr_names(r.choice([0, 1, 1, 2])):
                 if r.random() < 0.5:
                     out += "    .%s = %s\n" % (a, r.choice(["one", "other", "lit", "a", "1", "x{\"\"}", "{ $x }", "{ $x }{\"\"}"]))
                 else:
@@ -330,6 +341,12 @@ def handwritten():
          "m4 = { m5 } d\nm5 = e { $n ->\n *[other] { m4 }\n }\n", "%s=i1" % hx("n")),
         ("m0 = { $s ->\n [inf] I\n [NaN] N\n [infinity] Y\n *[other] O\n }\nm1 = { \"inf\" ->\n [inf] I\n *[o] O\n }\nm2 = { \"NaN\" ->\n [nan] l\n [NaN] N\n *[o] O\n }\nm3 = { $n ->\n [inf] I\n [one] 1\n *[o] O\n }\n", "%s=s%s&%s=i1" % (hx("s"), hx("infinity"), hx("n"))),
     ]
+    # patterns with MANY ELEMENTS (a block pattern has one text element per line): element counts around 256, 512 and
+    # 1024 with a single placeable - whatever width the element count is kept in, isolation and the single-element
+    # shortcuts depend on "more than one element", not on the count modulo something
+    for counts in ([252, 253, 254, 255, 256, 257], [509, 510, 511, 512, 1022, 1023]):
+        progs.append(("".join("m%d =\n%s    value: { $x }\n" % (i, "    line\n" * n) for i, n in enumerate(counts)),
+                      "%s=s%s" % (hx("x"), hx("abc"))))
     for (res, args) in progs:
         for iso in (0, 1):
             for fm in ("none", "numbr", "strwrap"):
